@@ -73,6 +73,24 @@ class Effects:
                         cs = {c for c in _ctor_names(n.args[0]) if c in self.classes}
                         if cs:
                             self.field_types.setdefault(a, set()).update(cs)
+        # fields that hold numpy arrays: some assignment from an np.* call, none from a list / comprehension
+        np_yes, np_no = set(), set()
+        for mod in modules.values():
+            for n in ast.walk(mod.tree):
+                if isinstance(n, ast.Assign):
+                    for t in n.targets:
+                        if isinstance(t, ast.Attribute):
+                            v = n.value
+                            if isinstance(v, (ast.List, ast.ListComp, ast.Dict, ast.DictComp, ast.Tuple)):
+                                np_no.add(t.attr)
+                            elif isinstance(v, ast.Call):
+                                f = v.func
+                                while isinstance(f, ast.Attribute):
+                                    f = f.value
+                                if isinstance(f, ast.Name) and f.id in ('np', 'numpy'):
+                                    np_yes.add(t.attr)
+        self.numpy_fields = np_yes - np_no
+        self._reb: dict[int, set] = {}
         self.subs: dict[str, set] = {}
         for name, defs in self.classes.items():
             for d in defs:
@@ -155,6 +173,8 @@ class Effects:
             recv = local_defs[recv.id]
         if isinstance(recv, ast.Name) and recv.id in self.classes:
             return self.methods_on(recv.id, name)
+        if isinstance(recv, ast.Call) and isinstance(recv.func, ast.Name) and recv.func.id in self.classes:
+            return self.methods_on(recv.func.id, name)
         a = _last_attr(recv)
         if a and a in self.field_types:
             out = []
@@ -190,18 +210,34 @@ class Effects:
                         w.add('*')
         return w
 
-    def of_function(self, func) -> set:
-        """attribute names a run of func may store to"""
+    @staticmethod
+    def direct_rebinds(func) -> set:
+        w = set()
+        for n in ast.walk(func):
+            if isinstance(n, ast.Attribute) and isinstance(n.ctx, (ast.Store, ast.Del)):
+                w.add(n.attr)
+            elif isinstance(n, ast.AugAssign) and isinstance(n.target, ast.Attribute):
+                w.add(n.target.attr)        # x.a += v may rebind (immutable) or mutate: count as rebinding
+            elif isinstance(n, ast.Call) and isinstance(n.func, ast.Name) and n.func.id in ('setattr', 'delattr'):
+                if len(n.args) >= 2 and isinstance(n.args[1], ast.Constant) and isinstance(n.args[1].value, str):
+                    w.add(n.args[1].value)
+                else:
+                    w.add('*')
+        return w
+
+    def of_function(self, func, rebinds_only=False) -> set:
+        """attribute names a run of func may store to (rebinds_only: may rebind as a whole)"""
         key = id(func)
-        if key in self._eff:
-            return self._eff[key]
+        cache = self._reb if rebinds_only else self._eff
+        if key in cache:
+            return cache[key]
         seen, todo, out = set(), [func], set()
         while todo:
             f = todo.pop()
             if id(f) in seen:
                 continue
             seen.add(id(f))
-            out |= self.direct(f)
+            out |= self.direct_rebinds(f) if rebinds_only else self.direct(f)
             cls = self._owner.get(id(f))
             a = f.args.posonlyargs + f.args.args
             sname = a[0].arg if (cls and a) else 'self'
@@ -220,14 +256,14 @@ class Effects:
                         out.add('*')
                     else:
                         todo.extend(r)
-        self._eff[key] = out
+        cache[key] = out
         return out
 
-    def of_call(self, call, cur_cls, local_defs=None, self_name='self') -> set:
+    def of_call(self, call, cur_cls, local_defs=None, self_name='self', rebinds_only=False) -> set:
         r = self.resolve(call, cur_cls, local_defs, self_name)
         if r is None:
             return {'*'}
         out = set()
         for f in r:
-            out |= self.of_function(f)
+            out |= self.of_function(f, rebinds_only)
         return out
